@@ -44,10 +44,12 @@ class T:
     args: list["T"] = field(default_factory=list)
     name: str | None = None        # class name for enum / data / nt / td, leaf kind for leaf
     extra: Any = None              # literal values, frozen flag, ...
+    sp: str = ""                   # how the annotation is SPELLED (same type, other text): see py_ann
+    ann: bool = False              # wrapped in Annotated[..., "m"]
 
     def key(self) -> str:
         a = ",".join(x.key() for x in self.args)
-        return f"{self.kind}:{self.name or ''}[{a}]{self.extra if self.extra is not None else ''}"
+        return f"{self.kind}:{self.name or ''}[{a}]{self.extra if self.extra is not None else ''}{('~' + self.sp) if self.sp else ''}{'@' if self.ann else ''}"
 
     def walk(self):
         yield self
@@ -89,7 +91,31 @@ nan = float("nan")
 
 
 def py_ann(t: T) -> str:
+    """annotation source.  The same type may be written in several ways (PEP 604 unions, None first, builtin generics,
+    an Annotated wrapper with inert metadata): the library must treat them alike, the models do not see the spelling."""
+    s = _py_ann(t)
+    return f'Annotated[{s}, "m"]' if t.ann else s
+
+
+def _py_ann(t: T) -> str:
     k = t.kind
+    if t.sp:
+        a = [py_ann(x) for x in t.args]
+        if k == "opt":
+            return {"pipe": f"{a[0]} | None", "nonefirst": f"None | {a[0]}", "unionnone": f"Union[None, {a[0]}]"}[t.sp]
+        if t.sp == "builtin":
+            if k == "list":
+                return f"list[{a[0]}]"
+            if k == "set":
+                return f"set[{a[0]}]"
+            if k == "frozenset":
+                return f"frozenset[{a[0]}]"
+            if k == "dict":
+                return f"dict[{a[0]}, {a[1]}]"
+            if k == "tuplevar":
+                return f"tuple[{a[0]}, ...]"
+            if k == "tuplefix":
+                return "tuple[" + ", ".join(a) + "]" if a else "tuple[()]"
     if k in ("int", "float", "bool", "str", "bytes", "bytearray"):
         return k
     if k == "none":
@@ -158,6 +184,7 @@ class FieldSpec:
     default: Any = NODEFAULT                # python value, 'factory:list' / 'factory:dict', or NODEFAULT
     default_src: str | None = None          # source text of the default expression
     alias: str | None = None                # metadata alias
+    final: bool = False                     # written Final[...] (dataclass fields only)
     optional: bool | None = None            # TypedDict key: True = NotRequired[...], False = Required[...], None = the class's totality
 
 
@@ -210,7 +237,8 @@ class ClassSpec:
                     rhs = rhs[:-1] + ", " + md + ")"
                 else:
                     rhs = f"field(default={rhs}, {md})"
-            lines.append(f"    {f.name}: {py_ann(f.ty)}" + (f" = {rhs}" if rhs else ""))
+            a = f"Final[{py_ann(f.ty)}]" if f.final else py_ann(f.ty)
+            lines.append(f"    {f.name}: {a}" + (f" = {rhs}" if rhs else ""))
         if not self.fields and not self.config:
             lines.append("    pass")
         if self.config:
@@ -292,6 +320,7 @@ class GenOpts:
     mixin: bool = False
     coq_only: bool = False        # stay inside TyModel.sty
     configs: bool = False         # aliases + serialize_by_alias / allow_deserialization_not_by_alias / forbid_extra_keys
+    spellings: bool = True        # PEP 604 / None-first unions, builtin generics, Annotated wrappers, Final fields
 
 
 COQ_CONTAINERS = ["list", "set", "frozenset", "tuplevar", "tuplefix", "dict", "opt"]
@@ -364,6 +393,21 @@ class SchemaGen:
         return T("leaf", name=self.rng.choice(self.o.leaves))
 
     def gen_type(self, depth: int | None = None, top: bool = False) -> T:
+        return self.spell(self._gen_type(depth, top))
+
+    def spell(self, t: T) -> T:
+        r = self.rng
+        if not self.o.spellings:
+            return t
+        if t.kind == "opt" and t.args[0].kind not in ("none",) and r.random() < 0.35:
+            t.sp = r.choice(["pipe", "nonefirst", "unionnone"])
+        elif t.kind in ("list", "set", "frozenset", "dict", "tuplevar", "tuplefix") and r.random() < 0.25:
+            t.sp = "builtin"
+        if t.kind != "none" and not (t.kind == "data" and t.extra == "fwd") and r.random() < 0.07:
+            t.ann = True
+        return t
+
+    def _gen_type(self, depth: int | None = None, top: bool = False) -> T:
         r = self.rng
         d = self.o.depth if depth is None else depth
         if d <= 0 or r.random() < 0.25:
@@ -474,6 +518,8 @@ class SchemaGen:
             if ft.kind == "none":      # a bare None annotation on a dataclass field is rejected by design
                 ft = self.scalar()
             fs = FieldSpec(f"f{i}", ft)
+            if self.o.spellings and r.random() < 0.08:
+                fs.final = True
             if seen_default or r.random() < 0.3:
                 dv = self.simple_default(ft)
                 if dv is not None:
